@@ -422,8 +422,9 @@ func (p *Parser) ParseTableProperty() (*ast.TableProperty, error) {
 	default:
 		return nil, errors.WithStack(UnexpectedToken(p.peekToken, "STRING"))
 	}
+	// The property starts at the first token of the key, a long string key ends at another token
 	prop := &ast.TableProperty{
-		Meta: p.curToken,
+		Meta: key.Meta,
 		Key:  key,
 	}
 	prop.Key.Meta = clearComments(prop.Key.Meta)
